@@ -17,11 +17,11 @@ structure Meta where
 /-- `varintPFORCalculateMarker` -/
 def marker (w : Nat) : Nat := if w ≥ 8 then 2 ^ 64 - 1 else 2 ^ (8 * w) - 1
 
-/-- `varintPFORComputeThreshold` for count > 0 (32-bit product wraps as in C) -/
+/-- `varintPFORComputeThreshold` for count > 0 (as repaired: the percentile index is a 64-bit product) -/
 def compute (xs : List Nat) (t : Nat) : Meta :=
   let sorted := xs.mergeSort (· ≤ ·)
   let n := xs.length
-  let idx0 := (n * t) % 2 ^ 32 / 100
+  let idx0 := (n * t) / 100          -- as repaired: a 64-bit product (count and threshold are 32-bit)
   let idx := if idx0 ≥ n then n - 1 else idx0
   let mn := sorted.headD 0
   let thr := sorted.getD idx 0
